@@ -11,8 +11,8 @@ CHUNK_WALL = 600
 RULE = ('for each usage script {blocking acquire; timed acquire_ctx; with on a default-timeout lock; reentrant acquire nested 3 deep; two '
         'rounds of with; a process that uses a FileLock object it inherited (already used) from its still-living parent across fork(); a daemon-style process with stdin closed that execs a helper program while holding} a real child process is first stepped alone to completion to count its controller steps n (every line event '
         'inside aiuti/filelock.py plus critical-section markers); then for EVERY k in 0..n a fresh child is stepped to event k and '
-        'SIGKILLed, with 0, 1 and 2 other stepped contender processes parked at seeded positions (4 configurations per k in quick, 12 in thorough: contenders x killed process reaped '
-        'at once / left a zombie x probe through the blocking / the polling acquire path). After the kill: if the kernel reports the lock free, a fresh process stepped alone must enter its '
+        'SIGKILLed, with 0, 1 and 2 other stepped contender processes parked at seeded positions (5 configurations per k in quick, 13 in thorough: contenders x killed process reaped '
+        'at once / left a zombie x probe through the blocking / the polling acquire path; the last configuration adds a contender that is already queued inside a blocking flock() on the lock file from the moment the victim holds the lock). After the kill: if the kernel reports the lock free, a fresh process stepped alone must enter its '
         'critical section within the step count of an uncontended acquire (+5); all survivors then run to completion under the overlap '
         'detector (O_EXCL marker + controller ledger) and a late fresh process must again acquire. The lock file is never cleaned up. '
         'Every case kills exactly one process; distinct by event-log digest.')
@@ -31,7 +31,7 @@ SCRIPTS = [n for n, sc in pw.CRASH_SCRIPTS.items() if not sc.get('outside_quanti
 
 
 def batches(tier):
-    cfgs = 4 if tier == 'quick' else 12
+    cfgs = 5 if tier == 'quick' else 13
     out = []
     for name in SCRIPTS:
         n = pw.count_events(name)
@@ -42,6 +42,9 @@ def batches(tier):
 def make_case(batch, seed):
     rng = random.Random(seed)
     k, cfg = divmod(batch['index'], batch['cfgs'])
+    queued = cfg == batch['cfgs'] - 1      # last configuration: a waiter already queued in flock() when the holder releases / dies
+    if queued:
+        cfg = k % 4
     ncont = cfg % 3
     conts = []
     for _ in range(ncont):
@@ -51,6 +54,8 @@ def make_case(batch, seed):
     # the killed process is reaped at once or left a zombie; the probe uses the blocking or the polling path
     prog = {'world': 'proc-crash', 'script': batch['profile'], 'kill_at': k, 'contenders': conts,
             'zombie': cfg % 2 == 1, 'timed_probe': (cfg // 2) % 2 == 1}
+    if queued:
+        prog['queued_waiter'] = True
     if pw.CRASH_SCRIPTS[batch['profile']].get('pre_holder'):
         prog['extra_polls'] = rng.randrange(3)
     return {'prog': prog, 'sched': {'seed': seed}}
